@@ -1,5 +1,5 @@
 (* Properties_C16.v — VarOpt sampling sketch and union: samples conserve total weight and keep heavy items exactly.
-   Only statements, closed by [exact]; proofs live in VarOptProofs.v / VarOptTheorems.v / VarOptUnion.v / VarOptMarks.v.
+   Only statements, closed by [exact]; proofs live in VarOptProofs.v / VarOptTheorems.v / VarOptUnion.v / VarOptMarks.v / VarOptTotal.v / VarOptHeavy.v.
 
    All theorems are about the EXACT-ARITHMETIC (Q) instance of the model text of VarOptDefs.v (the binary64 instance
    of the same text is what is extracted and replayed bit for bit against the C++).  They hold for every stream
@@ -7,7 +7,7 @@
    every sequence [c] of random draws (too short sequences included) and every decoding [cu] of the unit-interval
    draws. *)
 From Coq Require Import ZArith List Bool QArith Lia Permutation.
-From DS Require Import RunnerLib VarOptDefs VarOptProofs VarOptTheorems VarOptUnion VarOptMarks.
+From DS Require Import RunnerLib VarOptDefs VarOptProofs VarOptTheorems VarOptUnion VarOptMarks VarOptTotal VarOptHeavy.
 Import ListNotations.
 
 Section AnyDraws.
@@ -118,6 +118,25 @@ Section AnyDraws.
     exists S', Qserde Item S = Some S' /\ vH S' = vH S /\ vR S' = vR S /\ vtot S' == vtot S /\
                vn S' = vn S /\ vk S' = vk S /\ vM S' = [] /\ mm S' = 0%nat.
   Proof. intros ops c. exact (history_roundtrip Item ditem cu k gadget ops c Hk). Qed.
+
+  (* the whole lifecycle, spelled out: update*, serialize/deserialize, update* (any number of round trips, in any position):
+     the restored sketch continues exactly where the original stood - tau keeps growing across the round trip, and after the
+     continuation every input (before or after the round trip) heavier than tau is in H with its exact weight *)
+  Corollary C16_lifecycle_deserialize_continue : forall xs ys c,
+    let before := map (fun p => Upd Item (fst p) (snd p)) xs in
+    let after := map (fun p => Upd Item (fst p) (snd p)) ys in
+    let S1 := sketch_after before c in
+    let S2 := sketch_after (before ++ RoundTrip Item :: after) c in
+    ((1 <= rr S1)%nat -> (1 <= rr S2)%nat /\ Qtau S1 <= Qtau S2) /\
+    (forall x w, In (x, w) (input (before ++ RoundTrip Item :: after)) -> (rr S2 = 0%nat \/ Qtau S2 < w) ->
+                 In (x, w) (pairs_of (vH S2))).
+  Proof.
+    intros xs ys c before after S1 S2. split.
+    - apply (history_tau_monotone Item ditem cu k gadget before (RoundTrip Item :: after) c Hk).
+      apply Forall_cons; [discriminate|]. subst after. apply Forall_forall. intros o Ho. apply in_map_iff in Ho.
+      destruct Ho as (p & <- & _). discriminate.
+    - exact (inv_heavy_kept Item ditem k _ _ (HI _ c)).
+  Qed.
 End AnyDraws.
 
 
@@ -199,6 +218,36 @@ Section Union.
     Qresult_gen Item ditem cu a4 (fst (fst (urun Item ditem cu (Quempty Item max_k) ops c))) c2 = Some (res, c3) ->
     forall p, In p (pairs_of Item (vH res)) -> In p (uinputs Item [] ops).
   Proof. exact (union_history_H Item ditem cu). Qed.
+
+  (* TOTALITY: for every union history get_result returns - no throwing branch is reachable in exact arithmetic (the
+     consistency check of the mark-moving coercer holds, decrease_k_by_1 is never asked to go below k = 1, the migrate loop
+     terminates) - so the conclusions of C16_union_history / C16_union_result hold unconditionally *)
+  Theorem C16_union_result_total : forall max_k ops c c2 a4, (1 <= max_k)%nat -> valid_uops Item ditem ops ->
+    exists res c3, Qresult_gen Item ditem cu a4 (fst (fst (urun Item ditem cu (Quempty Item max_k) ops c))) c2 = Some (res, c3).
+  Proof. exact (union_history_total Item ditem cu). Qed.
+
+  Theorem C16_union_history_unconditional : forall max_k ops c c2 a4, (1 <= max_k)%nat -> valid_uops Item ditem ops ->
+    let n := fst (ulog Item (0%Z, 0) ops) in let W := snd (ulog Item (0%Z, 0) ops) in
+    exists u c1 res c3, urun Item ditem cu (Quempty Item max_k) ops c = (u, c1, true) /\
+      Qresult_gen Item ditem cu a4 u c2 = Some (res, c3) /\
+      vn res = n /\ sumw Item (vH res) + vtot res == W /\
+      (vk res <= max_k)%nat /\ (hh res + rr res <= vk res)%nat /\ vM res = [] /\ mm res = 0%nat.
+  Proof.
+    intros max_k ops c c2 a4 Hk Hv n W.
+    destruct (union_history Item ditem cu max_k ops c c2 Hk Hv) as (u & c1 & E & _ & _ & _ & Hres).
+    destruct (union_history_total Item ditem cu max_k ops c c2 a4 Hk Hv) as (res & c3 & Er).
+    rewrite E in Er. cbn [fst] in Er. exists u, c1, res, c3. split; [exact E|]. split; [exact Er|]. exact (Hres a4 res c3 Er).
+  Qed.
+
+  (* THE HEAVY-ITEM CLAUSE FOR UNION RESULTS, unconditionally and for all three coercers: get_result returns; the result's
+     tau is at least the tau of every estimation-mode sketch given since the last reset (outer tau monotone, and the
+     coercers only raise tau); and every input of those sketches heavier than the result's tau sits in the result's H region
+     with its exact weight *)
+  Theorem C16_union_heavy_kept : forall max_k ops c c2 a4, (1 <= max_k)%nat -> valid_uops Item ditem ops ->
+    exists res c3, Qresult_gen Item ditem cu a4 (fst (fst (urun Item ditem cu (Quempty Item max_k) ops c))) c2 = Some (res, c3) /\
+      (forall sk A, In (sk, A) (uupds Item [] ops) -> (1 <= rr sk)%nat -> (1 <= rr res)%nat /\ Qtau Item sk <= Qtau Item res) /\
+      (forall x w, In (x, w) (uinputs Item [] ops) -> (rr res = 0%nat \/ Qtau Item res < w) -> In (x, w) (pairs_of Item (vH res))).
+  Proof. exact (union_history_heavy Item ditem cu). Qed.
 End Union.
 
 (* non-vacuity: k = 3, seven updates (one refused, one ignored) and a round trip, draws 0.5 / index 1: estimation mode is reached,
@@ -240,6 +289,10 @@ Print Assumptions C16_union_roundtrip.
 Print Assumptions C16_union_history.
 Print Assumptions C16_union_samples_from_input.
 Print Assumptions C16_union_H_exact.
+Print Assumptions C16_union_result_total.
+Print Assumptions C16_union_history_unconditional.
+Print Assumptions C16_union_heavy_kept.
+Print Assumptions C16_lifecycle_deserialize_continue.
 Print Assumptions C16_counts.
 Print Assumptions C16_weight.
 Print Assumptions C16_tau_monotone.
